@@ -74,6 +74,10 @@ pub trait PopLike: ec_core::population::Population<Individual = Self::Ind> + Fro
     const SEQUENCE: bool;
     /// members in iteration order
     fn members(&self) -> Vec<Child>;
+    /// what a child maker call records about the population it is shown (must agree with `fingerprint_of(&self.members())`)
+    fn fingerprint(&self) -> (usize, u64) {
+        fingerprint_of(&self.members())
+    }
 }
 impl PopLike for Vec<Child> {
     type Ind = Child;
@@ -81,6 +85,9 @@ impl PopLike for Vec<Child> {
     const SEQUENCE: bool = true;
     fn members(&self) -> Vec<Child> {
         self.clone()
+    }
+    fn fingerprint(&self) -> (usize, u64) {
+        fingerprint_of(self) // no copy: large Vec populations are the common large case
     }
 }
 impl PopLike for std::collections::VecDeque<Child> {
@@ -112,8 +119,19 @@ impl PopLike for std::collections::HashSet<Keyed> {
 
 /// what a child-maker call saw: the keys (sets) or full members (sequences) of the population
 fn fingerprint<P: PopLike>(pop: &P) -> (usize, u64) {
-    let m = pop.members();
-    (m.len(), hash64(&m))
+    pop.fingerprint()
+}
+
+/// full hash for populations of up to 300 members; for larger ones (every child maker call computes
+/// this) the length, 64 evenly spaced members and both ends
+fn fingerprint_of(m: &[Child]) -> (usize, u64) {
+    if m.len() <= 300 {
+        (m.len(), hash64(m))
+    } else {
+        let step = m.len() / 64;
+        let sampled: Vec<&Child> = m.iter().step_by(step.max(1)).chain(m.last()).collect();
+        (m.len(), hash64(&sampled))
+    }
 }
 
 #[derive(Clone, Debug)]
@@ -255,7 +273,7 @@ fn oracle_for<P: PopLike>(c: &Case, probe: &mut Probe) -> Result<(), Fail> {
             old.len(),
             ec_core::population::Population::is_empty(generation.population())
         );
-        let old_hash = hash64(&old);
+        let old_hash = fingerprint_of(&old).1;
         let start_call = shared.counter.load(Ordering::SeqCst);
         {
             let mut f = shared.fail_at.lock().map_err(|_| Fail::new("harness/lock", "poisoned"))?;
@@ -421,6 +439,8 @@ fn strategy() -> BoxedStrategy<Case> {
         6 => 2usize..=64,
         2 => prop::sample::select(vec![127usize, 128, 129, 200, 256, 300]),
         1 => Just(1000usize),
+        // beyond rayon's and anybody's task-splitting thresholds (kept rare: a case costs tens of milliseconds)
+        1 => prop::sample::select(vec![2047usize, 2048, 2049, 4097, 6000]),
     ];
     size.prop_flat_map(|size| {
         let n = size as u16;
@@ -446,7 +466,7 @@ fn strategy() -> BoxedStrategy<Case> {
 }
 
 pub fn run(ctx: &mut Ctx) {
-    ctx.rule = "population sizes {0, 1, 2..64, 127..300, 1000} held in a Vec, VecDeque, BTreeSet or HashSet (the set kinds merge children with equal keys, so a step can shrink the population and the next step must make as many children as the population then has); 1-4 consecutive generation steps per case on one Generation value, each serial or parallel inside a rayon pool of 1/2/3/4/8/16 threads; the child maker is a probe that records the address and a hash of the population it is shown, draws one word from the generator it is handed, yields/sleeps according to a generated delay script and fails at generated call positions. Oracle after Ok: the new population consists of exactly population-size children produced from the previous population - those made in this round plus, at most, children left over from failed attempts since the population last changed - in order of production for serial steps (key set for the merging kinds), and has the same size unless it merges, every call saw the old population, all drawn words pairwise distinct within and across rounds; after Err: the error is one the probe raised and the population is unchanged. non-trivial = size >= 2 and (a failing child or >= 2 threads); distinct by JSON encoding".into();
+    ctx.rule = "population sizes {0, 1, 2..64, 127..300, 1000, 2047..6000} held in a Vec, VecDeque, BTreeSet or HashSet (the set kinds merge children with equal keys, so a step can shrink the population and the next step must make as many children as the population then has); 1-4 consecutive generation steps per case on one Generation value, each serial or parallel inside a rayon pool of 1/2/3/4/8/16 threads; the child maker is a probe that records the address and a hash of the population it is shown, draws one word from the generator it is handed, yields/sleeps according to a generated delay script and fails at generated call positions. Oracle after Ok: the new population consists of exactly population-size children produced from the previous population - those made in this round plus, at most, children left over from failed attempts since the population last changed - in order of production for serial steps (key set for the merging kinds), and has the same size unless it merges, every call saw the old population, all drawn words pairwise distinct within and across rounds; after Err: the error is one the probe raised and the population is unchanged. non-trivial = size >= 2 and (a failing child or >= 2 threads); distinct by JSON encoding".into();
     ctx.assumptions.push("interleavings are perturbed (pool size x delay script), not enumerated: rayon's scheduler is not under the harness's control".into());
     let n = ctx.tier.pick(12_000u32, 400_000);
     let saved = ctx.threads;
